@@ -553,7 +553,7 @@ def scenarios(rng, tier):
         scn['probes'] = [list(x) for x in DAYS]
         yield scn
     # 3. random date-times
-    for _ in range(2500 if quick else 60000):
+    for _ in range(5000 if quick else 60000):
         yield build('dt', rand_ranges('dt', rng), rng)
     for _ in range(60 if quick else 1500):
         a, b = rand_datetime(rng), rand_datetime(rng)
@@ -575,13 +575,13 @@ def scenarios(rng, tier):
                 yield {'kind': 'dt', 'spec': [[na, nb]], 'as_set': False, 'ref': ref, 'expect': 'ok', 'probes': [],
                        'fams': [fam]}
     # 4. malformed: documented-malformed classes
-    for _ in range(3000 if quick else 60000):
+    for _ in range(6000 if quick else 60000):
         kind, spec, cls = malformed(rng)
         yield {'kind': kind, 'spec': spec, 'as_set': isinstance(spec, list) and rng.random() < 0.1 and _hashable(spec),
                'ref': None, 'expect': 'reject', 'probes': [], 'fams': ['malformed: ' + cls]}
     # 5. character-level mutations of valid strings (no expectation)
     n = 0
-    want = 9000 if quick else 250000
+    want = 20000 if quick else 250000
     while n < want:
         kind = rng.choice(['t', 'd', 'dt'])
         base = build(kind, rand_ranges(kind, rng, n=rng.choice([1, 1, 2])), rng, want='str')
@@ -685,10 +685,16 @@ def run_impl(scn):
     trace.append('s' + asstr.encode().hex())
     members = []
     for p in scn.get('probes', []):
-        obj = {'t': dt.time, 'd': lambda mo, d: dt.date(ti._DUMMY_YEAR, mo, d), 'dt': dt.datetime}[kind](*p)
-        got = obj in iv
-        members.append(got)
         lines.append('interval in ' + '.'.join(map(str, p)))
+        try:
+            # dates as TimeDate.recalc builds them
+            obj = {'t': dt.time, 'd': lambda mo, d: ti.convert_date_seq([mo, d]), 'dt': dt.datetime}[kind](*p)
+            got = obj in iv
+        except Exception as err:    # noqa: BLE001
+            members.append('err ' + err_name(err))
+            trace.append('err ' + err_name(err))
+            continue
+        members.append(got)
         trace.append('b1' if got else 'b0')
     # round trips (also compared with the model)
     back = {}
